@@ -511,6 +511,10 @@ def oracle_dataset(m, idx, decoded=False):
                         break
                 if why: break
         return "dataset %d: the message encoded after dump+load differs from the original at octet %d (%d vs %d octets)%s" % (idx + 1, k, len(a), len(b), why)
+    # every header key comes back: the header the loaded dataset carries is the header of the dataset that was written
+    # (for the k-th dataset of a file too: nothing of an earlier dataset may stick to it)
+    if m.get("hdr") and m.get("ohdr") and m["hdr"] != m["ohdr"]:
+        return "dataset %d: header values after dump+load %s differ from the ones written %s (edition, master table, centre, sub-centre, update, category, sub-categories, versions, date/time, flags)" % (idx + 1, m["hdr"], m["ohdr"])
     return None
 
 
